@@ -177,6 +177,7 @@ type Profile struct {
 	Finish       bool
 	Stall        bool
 	Probe        string
+	Hostile      bool
 }
 
 var defaultKinds = []string{"sts", "dp", "tapp", "foo", "bare"}
@@ -219,9 +220,13 @@ func profileFor(prop string) Profile {
 		p.Ranges = true
 		p.Ops = [2]int{8, 22}
 		p.Kinds = []string{"sts", "tapp", "bare", "dp"}
+	case "C18":
+		p.Hostile = true
+		p.AdminRelease, p.AdminList, p.PoolAPI, p.Reload, p.Ranges, p.Relist = true, true, true, true, true, true
 	case "C19":
 		p.Faults, p.Crash, p.Relist, p.Reload, p.AdminRelease, p.AdminList, p.PoolAPI, p.Reserve, p.Ranges, p.Collect = true, false, true, true, true, true, true, true, true, true
 		p.Cloud = 2
+		p.Stall = true
 	}
 	return p
 }
@@ -289,6 +294,8 @@ type World struct {
 	recovering       bool
 	schedBefore      map[string][]string
 	schedTouched     map[string]bool
+	hostileSeq        int
+	hostileConfActive bool
 }
 
 func (w *World) fail(oracle, key, format string, a ...interface{}) {
@@ -909,7 +916,11 @@ func (w *World) Idle() bool {
 		return true
 	case 2:
 		if b := w.S.Blocked(); len(b) > 0 {
-			w.fail("deadlock", "deadlock", "tasks blocked forever on locks at quiescence: %s", taskNames(b))
+			if w.armed("C18") {
+				w.fail("C18.wedged", "wedged", "tasks blocked forever on locks at quiescence (a lock is held by a task that ended or never returns): %s", taskNames(b))
+			} else {
+				w.fail("deadlock", "deadlock", "tasks blocked forever on locks at quiescence: %s", taskNames(b))
+			}
 			return false
 		}
 		w.phase = 3
@@ -1111,7 +1122,7 @@ func panicSite(msg string) string {
 	for _, l := range strings.Split(msg, "\n") {
 		l = strings.TrimSpace(l)
 		if strings.HasPrefix(l, "tkestack.io/galaxy/pkg/") || strings.HasPrefix(l, "tkestack.io/galaxy/cni/") {
-			if i := strings.Index(l, "("); i > 0 {
+			if i := strings.LastIndex(l, "("); i > 0 {
 				l = l[:i]
 			}
 			l = strings.TrimPrefix(l, "tkestack.io/galaxy/")
